@@ -254,4 +254,22 @@ theorem writeEvents_ids (drp t : String) (ops : List Op) :
     | delete id => simp [writeEvents, writtenIds, ih]
     | write db rp pts => simp [writeEvents, writtenIds, ih, List.map_map, Function.comp_def]
 
+/-- One `WritePoints` call with the points `a ++ b` is, for the spec, two calls with `a` and with `b`. -/
+theorem writeEvents_write_append (drp t : String) (cur : Option TaskDef) (db rp : String) (a b : List RawPoint) (rest : List Op) :
+    writeEvents drp t cur (.write db rp (a ++ b) :: rest) = writeEvents drp t cur (.write db rp a :: .write db rp b :: rest) := by
+  simp [writeEvents, List.map_append, List.append_assoc]
+
+theorem writeEvents_append (drp t : String) (xs ys : List Op) :
+    ∀ cur, ∃ cur', writeEvents drp t cur (xs ++ ys) = writeEvents drp t cur xs ++ writeEvents drp t cur' ys := by
+  induction xs with
+  | nil => intro cur; exact ⟨cur, by simp [writeEvents]⟩
+  | cons op rest ih =>
+    intro cur
+    cases op with
+    | start d => obtain ⟨c, h⟩ := ih (enabledAfter t cur (.start d)); exact ⟨c, by simp [writeEvents, h]⟩
+    | startfail d => obtain ⟨c, h⟩ := ih (enabledAfter t cur (.startfail d)); exact ⟨c, by simp [writeEvents, h]⟩
+    | stop id => obtain ⟨c, h⟩ := ih (enabledAfter t cur (.stop id)); exact ⟨c, by simp [writeEvents, h]⟩
+    | delete id => obtain ⟨c, h⟩ := ih (enabledAfter t cur (.delete id)); exact ⟨c, by simp [writeEvents, h]⟩
+    | write db rp pts => obtain ⟨c, h⟩ := ih cur; exact ⟨c, by simp [writeEvents, h, List.append_assoc]⟩
+
 end Kap.C02
